@@ -14,6 +14,9 @@ import (
 type Fresh struct {
 	CC      []string `json:"cc,omitempty"`
 	Expires []string `json:"expires,omitempty"`
+	// Date is the answer's own Date field when it is not "now": an answer that was generated a while ago
+	// (it comes out of the origin's own cache or through a CDN). Its Expires date is no later for that.
+	Date string `json:"date,omitempty"`
 }
 
 var maxAgeVals = []string{"0", "1", "5", "60", "60", "3600", "2147483648", "9223372036", "9223372037", "10000000000000",
@@ -90,6 +93,9 @@ func DrawFresh(t *rapid.T, now time.Time) Fresh {
 	case 7:
 		f.Expires = []string{now.Add(-time.Hour).UTC().Format(time.RFC850)}
 	}
+	if len(f.Expires) > 0 && rapid.IntRange(0, 3).Draw(t, "old-date") == 0 {
+		f.Date = now.Add(-rapid.SampledFrom([]time.Duration{6 * time.Second, 45 * time.Second, time.Hour, 26 * time.Hour}).Draw(t, "date-ago")).UTC().Format(http.TimeFormat)
+	}
 	return f
 }
 
@@ -107,7 +113,26 @@ func (f Fresh) Canon() string {
 			exp[i] = e
 		}
 	}
-	return strings.Join(f.CC, "\n") + "||" + strings.Join(exp, "\n")
+	old := ""
+	if f.Date != "" {
+		old = "||old-date"
+	}
+	return strings.Join(f.CC, "\n") + "||" + strings.Join(exp, "\n") + old
+}
+
+// Lines are the header lines in sending order.
+func (f Fresh) Lines() [][2]string {
+	var out [][2]string
+	for _, l := range f.CC {
+		out = append(out, [2]string{"Cache-Control", l})
+	}
+	for _, l := range f.Expires {
+		out = append(out, [2]string{"Expires", l})
+	}
+	if f.Date != "" {
+		out = append(out, [2]string{"Date", f.Date})
+	}
+	return out
 }
 
 // Header renders the lines into an http.Header (keys omitted when empty).
@@ -118,6 +143,9 @@ func (f Fresh) Header() http.Header {
 	}
 	if len(f.Expires) > 0 {
 		h["Expires"] = append([]string(nil), f.Expires...)
+	}
+	if f.Date != "" {
+		h["Date"] = []string{f.Date}
 	}
 	return h
 }
